@@ -50,9 +50,13 @@ fn call(b: Builder, m: &mut Model, slot: usize, c: usize) -> Builder {
     let text: String = if empty { String::new() } else { (0..(3 + 5 * (c % 1000))).map(|i| (b'a' + ((i + slot) % 26) as u8) as char).collect() };
     let mut blob: Vec<u8> = if empty { vec![] } else { (0..(2 + 7 * (c % 1000))).map(|i| marker(i, slot + 50)).collect() };
     // seeds 3000..: contents that look like structure (end-tag images, a tag header, a whole boot information)
-    let look = c >= 3000;
+    let look = (3000..4000).contains(&c);
     const END: [u8; 8] = [0, 0, 0, 0, 8, 0, 0, 0];
-    if look {
+    if (4000..4006).contains(&c) {
+        // large payloads: totals around 64 KiB, 1 MiB, 16 MiB
+        let n = [65536usize, 1 << 20, (6 << 20) + 8, (16 << 20) - 24, 16 << 20, 17 << 20][(c - 4000) % 6];
+        blob = (0..n).map(|i| marker(i, slot + 50)).collect();
+    } else if look {
         blob = match c - 3000 {
             0 => END.to_vec(),
             1 => [&[1u8, 0, 0, 0, 9, 0, 0, 0][..], &END[..]].concat(),
@@ -415,6 +419,29 @@ fn run(ctx: &mut Ctx) {
                     run_program(ctx, &prog, &|| format!("calls {:?}", prog));
                 });
             }
+        }
+    }
+    // large structures
+    ctx.bound("large_structures", "blob kinds (SMBIOS, network, custom) with payloads of 64 KiB, 1 MiB, 6 MiB, 16 MiB - 24, 16 MiB and 17 MiB, alone and with a module in front; three 6 MiB payloads whose sum crosses 16 MiB");
+    {
+        let mut progs: Vec<Vec<(usize, usize)>> = vec![];
+        for slot in [12usize, 16, 21] {
+            for v in 0..6usize {
+                if v >= 3 && slot != 21 {
+                    continue;
+                }
+                progs.push(vec![(slot, 4000 + v)]);
+                progs.push(vec![(2, 1), (slot, 4000 + v), (20, 0)]);
+            }
+        }
+        progs.push(vec![(2, 1), (12, 4002), (16, 4002), (21, 4002)]);
+        for prog in progs {
+            let describe = || J::obj().set("part", "large").set("calls", J::Arr(prog.iter().map(|(s, c)| J::from(format!("{}#{}", SLOT_NAMES[*s], c))).collect()));
+            ctx.leaf(describe, |ctx| {
+                ctx.state_direct();
+                ctx.nontrivial();
+                run_program(ctx, &prog, &|| format!("calls {:?}", prog));
+            });
         }
     }
     for typ in 0..=21u32 {
